@@ -59,6 +59,41 @@ func corpus() []*c03lib.History {
 		c03lib.OpSpec{Op: "lockghost", Keys: []int{8}, As: "exc:0", Fork: true},
 		c03lib.OpSpec{Op: "lockghost", Keys: []int{9, 9}, As: "tx:3"},
 		c03lib.OpSpec{Op: "lockghost", Keys: nil, As: "tx:3"})
+	// key reuse: holder A only reserved / admitted and persisted / finalized,
+	// then B (sharing key 6) through every path, fork and not
+	reuse := func() []c03lib.TxSpec {
+		return []c03lib.TxSpec{
+			{Kind: "genesis", Tag: "g0", Outs: [][]int{{0}, {1}}},
+			{Kind: "script", Tag: "A", Ins: []c03lib.SlotRef{{Tx: 0, Index: 0}}, Outs: [][]int{{5}, {6}}},
+			{Kind: "script", Tag: "B", Ins: []c03lib.SlotRef{{Tx: 0, Index: 1}}, Outs: [][]int{{6}, {7}}},
+		}
+	}
+	for state := 0; state < 3; state++ {
+		for path := 0; path < 5; path++ {
+			ops := []c03lib.OpSpec{{Op: "writetx", Tx: 0}, {Op: "finalize", Txs: []int{0}}, {Op: "validate", Tx: 1}}
+			if state >= 1 {
+				ops = append(ops, c03lib.OpSpec{Op: "lockinputs", Tx: 1}, c03lib.OpSpec{Op: "writetx", Tx: 1})
+			}
+			if state == 2 {
+				ops = append(ops, c03lib.OpSpec{Op: "finalize", Txs: []int{1}})
+			}
+			switch path {
+			case 0:
+				ops = append(ops, c03lib.OpSpec{Op: "validate", Tx: 2, Fork: false})
+			case 1:
+				ops = append(ops, c03lib.OpSpec{Op: "validate", Tx: 2, Fork: true})
+			case 2:
+				ops = append(ops, c03lib.OpSpec{Op: "lockghost", Keys: []int{6}, As: "tx:2", Fork: false})
+			case 3:
+				ops = append(ops, c03lib.OpSpec{Op: "lockghost", Keys: []int{7, 6}, As: "tx:2", Fork: true})
+			case 4:
+				ops = append(ops, c03lib.OpSpec{Op: "lockinputs", Tx: 2}, c03lib.OpSpec{Op: "writetx", Tx: 2}, c03lib.OpSpec{Op: "finalize", Txs: []int{2}})
+			}
+			// afterwards A is still what it was
+			ops = append(ops, c03lib.OpSpec{Op: "validate", Tx: 1}, c03lib.OpSpec{Op: "lockghost", Keys: []int{6}, As: "tx:2", Fork: true})
+			hs = append(hs, &c03lib.History{Kind: "corpus-reuse", NKeys: 10, Txs: reuse(), Ops: ops})
+		}
+	}
 	hs = append(hs, &c03lib.History{Kind: "corpus-conc", NKeys: 10, Txs: txs(),
 		Ops: []c03lib.OpSpec{{Op: "writetx", Tx: 0}, {Op: "writetx", Tx: 1}, {Op: "writetx", Tx: 2}},
 		Conc: []c03lib.OpSpec{
@@ -72,7 +107,7 @@ func corpus() []*c03lib.History {
 
 func main() {
 	c := vh.Start("C04")
-	c.Rep.Rule = "filter cases: output key lists with and without repeats given to the real validateOutputs with a recording locker; histories as in C03 with the draw concentrated on keys (admission 12%, key locks for own/foreign/zero/exception callers 32%, finalization 18%, lock/write calls that make finalization possible 36%) over 10 output keys shared by ~14 transactions, every call on a real Badger store; concurrent histories add a batch of 9-14 calls from 8 goroutines. Non-trivial: at least two calls changed the store (filter: at least one key); distinct: sequence of (call kind, result class) plus final sizes."
+	c.Rep.Rule = "filter cases: output key lists with and without repeats given to the real validateOutputs with a recording locker; histories as in C03 with the draw concentrated on keys (admission 12%, key locks for own/foreign/zero/exception callers 32%, finalization 18%, lock/write calls that make finalization possible 36%) over 10 output keys shared by ~14 transactions, every call on a real Badger store; reuse histories put a key holder in each of three states (reserved only / admitted and persisted / finalized) and let another transaction reuse the key through admission, raw key lock and finalization, fork and not; concurrent histories add a batch of 9-14 calls from 8 goroutines. Non-trivial: at least two calls changed the store (filter: at least one key); distinct: sequence of (call kind, result class) plus final sizes."
 	if c.Replay != "" {
 		var h c03lib.History
 		c.ReplayCase(&h)
@@ -97,6 +132,10 @@ func main() {
 	rs := c.Rng.Fork("seq")
 	for i := 0; i < c.Scale(100, 3500); i++ {
 		hs = append(hs, c03lib.GenHistory(rs, "seq", c03lib.WeightsC04, rs.Range(12, 40), 0))
+	}
+	rr := c.Rng.Fork("reuse")
+	for i := 0; i < c.Scale(45, 1500); i++ {
+		hs = append(hs, c03lib.GenReuse(rr, "reuse", c03lib.WeightsC04, 4))
 	}
 	rc := c.Rng.Fork("conc")
 	for i := 0; i < c.Scale(50, 2000); i++ {
